@@ -610,10 +610,6 @@ func (q *TransferQueue) enqueueAndCollectRetriesFor(batch batch) (batch, error) 
 		}
 	}
 
-	if len(bRes.Objects) == 0 {
-		return next, nil
-	}
-
 	// We check first that all of the objects we want to upload are present,
 	// and abort if any are missing. We'll never have any objects marked as
 	// missing except possibly on upload, so just skip iterating over the
@@ -635,7 +631,24 @@ func (q *TransferQueue) enqueueAndCollectRetriesFor(batch batch) (batch, error) 
 
 	toTransfer := make([]*Transfer, 0, len(bRes.Objects))
 
+	// Each object of the batch must be accounted for exactly once, whatever
+	// the response lists: an object is taken from "requested" the first time
+	// the response names it, and the ones the response never named are
+	// failed below.
+	requested := make(map[string]struct{}, len(batch))
+	for _, t := range batch {
+		requested[t.Oid] = struct{}{}
+	}
+
 	for _, o := range bRes.Objects {
+		if _, ok := requested[o.Oid]; !ok {
+			// Not an object of this batch, or one the response has
+			// already named: there is nothing of ours to account for.
+			q.errorc <- errors.New(tr.Tr.Get("[%v] The server returned an unknown OID.", o.Oid))
+			continue
+		}
+		delete(requested, o.Oid)
+
 		if o.Error != nil {
 			q.errorc <- errors.Wrapf(o.Error, "[%v] %v", o.Oid, o.Error.Message)
 			q.Skip(o.Size)
@@ -677,6 +690,16 @@ func (q *TransferQueue) enqueueAndCollectRetriesFor(batch batch) (batch, error) 
 				q.meter.StartTransfer(objects.First().Name)
 				toTransfer = append(toTransfer, tr)
 			}
+		}
+	}
+
+	for _, t := range batch {
+		if _, ok := requested[t.Oid]; ok {
+			delete(requested, t.Oid)
+
+			q.errorc <- errors.New(tr.Tr.Get("[%v] The server did not return this object.", t.Oid))
+			q.Skip(t.Size)
+			q.wait.Done()
 		}
 	}
 
